@@ -1229,6 +1229,14 @@ func runR67(c *Ctx) {
 			return false, false
 		}
 		pe.oracle = func(pe *pathExec, cond ssa.Value) (bool, bool) { return pe.evalBool(cond, atom) }
+		// a helper that builds the low level filter (invertedLeaf(leaf) filter.Filter) is evaluated in place
+		pe.inline = func(callee *ssa.Function) bool {
+			if callee.Pkg != fn.Pkg || callee.Signature.Recv() != nil || callee.Signature.Results().Len() != 1 {
+				return false
+			}
+			n, ok := callee.Signature.Results().At(0).Type().(*types.Named)
+			return ok && n.Obj().Name() == "Filter" && n.Obj().Pkg().Path() == rel("filter")
+		}
 		stored, storedKnown, nStores := false, false, 0
 		handsOver := false
 		var at ssa.Instruction
